@@ -22,6 +22,9 @@ Limit0 == {0}
 Limits03 == {0, 1, 2, 3}
 Limits05 == {0, 1, 2, 3, 4, 5}
 Limits07 == {0, 1, 2, 3, 4, 5, 6, 7}
+M1 == {1}
+\* 12 tied victims: more than one bucket of the Go map the pass iterates (deletion order differs from list order)
+M1_12 == {1, 12}
 Open0 == {0}
 Open01 == {0, 1}
 =============================================================================
